@@ -2,6 +2,7 @@ use crate::evidence::{Report, Tier};
 
 pub mod bitreader;
 pub mod common;
+pub mod inter;
 pub mod intra;
 pub mod deblock;
 pub mod yuv;
@@ -12,6 +13,8 @@ pub fn run(id: &str, tier: Tier) -> Option<Report> {
         "C16" => deblock::run_c16(tier),
         "C14" => bitreader::run(tier),
         "C02" => intra::run(tier),
+        "C03" => inter::run_c03(tier),
+        "C12" => inter::run_c12(tier),
         "C07" => yuv::run_c07(tier),
         "C08" => yuv::run_c08(tier),
         _ => return None,
